@@ -25,13 +25,18 @@ pub struct Fr {
     pub payload: Vec<u8>,
     /// frame belongs to a second link (handle 1) interleaved on the same session
     pub other_link: bool,
+    /// the transfer carries `resume = true`
+    pub resume: bool,
+    /// a complete delivery with `resume = true` and a delivery-tag of its own, sent while another delivery of
+    /// the same link is under way (not something a conforming sender does; `on_resuming_transfer` has an arm for it)
+    pub lone: bool,
 }
 
 impl Fr {
     fn line(&self) -> String {
         let o = |x: Option<u32>| x.map(|v| v as i64).unwrap_or(-1);
         format!(
-            "M frame {} {} {} {} {} {} {}",
+            "M frame {} {} {} {} {} {} {}{}",
             o(self.id),
             self.tag.as_ref().map(|t| if t.is_empty() { "-".to_string() } else { hex(t) }).unwrap_or_else(|| "none".into()),
             o(self.fmt),
@@ -42,7 +47,8 @@ impl Fr {
             },
             self.more as u8,
             self.aborted as u8,
-            if self.payload.is_empty() { "-".to_string() } else { hex(&self.payload) }
+            if self.payload.is_empty() { "-".to_string() } else { hex(&self.payload) },
+            if self.resume { " 1" } else { "" }
         )
     }
     fn to_json(&self) -> J {
@@ -77,11 +83,20 @@ fn gen_case(rng: &mut Rng) -> Case {
         let contradict_at = if abort_at.is_none() && rng.chance(1, 10) && n_frames > 1 { Some(rng.range(1, n_frames as u64 - 1) as usize) } else { None };
         // an extra frame with another delivery-id in the middle of the delivery (refused), after which the delivery goes on
         let intruder_at = if abort_at.is_none() && contradict_at.is_none() && n_frames > 1 && rng.chance(1, 6) { Some(rng.range(1, n_frames as u64 - 1) as usize) } else { None };
+        // the delivery is one that is transferred again after a resumption: `resume` on its last frame and on some others
+        let resumed = rng.chance(1, 5);
+        // a complete delivery of its own (another tag, resume = true) in the middle of this one
+        let lone_at = if abort_at.is_none() && contradict_at.is_none() && intruder_at.is_none() && n_frames > 1 && rng.chance(1, 8) { Some(rng.range(1, n_frames as u64 - 1) as usize) } else { None };
         let mut prev = 0;
         for k in 0..n_frames {
+            if lone_at == Some(k) {
+                let m2 = message_bytes(rng.next(), *rng.pick(&[0usize, 3, 40]));
+                next_id = next_id.wrapping_add(1);
+                frames.push(Fr { id: Some(id.wrapping_add(1)), tag: Some(vec![0xee, d as u8]), fmt: Some(0), settled: None, more: false, aborted: false, payload: m2, other_link: false, resume: true, lone: true });
+            }
             if intruder_at == Some(k) {
                 let junk: Vec<u8> = if rng.chance(1, 2) { msg[..prev.min(msg.len())].to_vec() } else { (0..1 + rng.below(12)).map(|_| rng.next() as u8).collect() };
-                frames.push(Fr { id: Some(id.wrapping_add(77)), tag: None, fmt: None, settled: None, more: true, aborted: false, payload: junk, other_link: false });
+                frames.push(Fr { id: Some(id.wrapping_add(77)), tag: None, fmt: None, settled: None, more: true, aborted: false, payload: junk, other_link: false, resume: false, lone: false });
             }
             let end = if k + 1 == n_frames { msg.len() } else { cuts[k] };
             let payload = msg[prev..end].to_vec();
@@ -96,6 +111,8 @@ fn gen_case(rng: &mut Rng) -> Case {
                 aborted: false,
                 payload,
                 other_link: false,
+                resume: resumed && (k + 1 == n_frames || rng.chance(1, 2)),
+                lone: false,
             };
             if abort_at == Some(k) {
                 // the abort frame: its `more` flag and its payload mean nothing
@@ -114,7 +131,7 @@ fn gen_case(rng: &mut Rng) -> Case {
             // a complete single-frame delivery of another link in between
             if rng.chance(1, 4) {
                 let m2 = message_bytes(rng.next(), 3);
-                frames.push(Fr { id: Some(other_id), tag: Some(other_id.to_be_bytes().to_vec()), fmt: Some(0), settled: Some(true), more: false, aborted: false, payload: m2, other_link: true });
+                frames.push(Fr { id: Some(other_id), tag: Some(other_id.to_be_bytes().to_vec()), fmt: Some(0), settled: Some(true), more: false, aborted: false, payload: m2, other_link: true, resume: false, lone: false });
                 other_id += 1;
             }
             if contradict_at == Some(k) {
@@ -156,6 +173,7 @@ fn run_impl(case: &Case) -> Result<Vec<String>, String> {
             let mut t = transfer(if f.other_link { 1 } else { 0 }, f.id, f.tag.clone(), f.settled, f.more);
             t.message_format = f.fmt;
             t.aborted = f.aborted;
+            t.resume = f.resume;
             peer.send(0, Performative::Transfer(t), &f.payload).await.map_err(|e| format!("{:?}", e))?;
             if f.other_link {
                 other_sent += 1;
@@ -230,6 +248,14 @@ fn check_property(case: &Case, seen: &[String]) -> Option<(String, String)> {
             Some(g) => g,
             None => return if contradiction { None } else { Some(("missing-observation".into(), format!("frame {}", i))) },
         };
+        if f.lone {
+            // the delivery in progress is left alone, this one is handed over as it is
+            let expect = format!("D {} {} F {}", f.id.unwrap_or(0), hex(f.tag.as_ref().unwrap()), if f.payload.is_empty() { "-".to_string() } else { hex(&f.payload) });
+            if *got != expect {
+                return Some(("wrong-delivery".into(), format!("frame {} (a complete delivery of its own with resume = true, sent while delivery {:?} is under way): expected {}… got {}…", i, first.as_ref().map(|x| x.0), &expect[..expect.len().min(70)], &got[..got.len().min(70)])));
+            }
+            continue;
+        }
         if f.aborted {
             acc.clear();
             first = None;
@@ -421,6 +447,8 @@ pub fn main(opts: &Opts) {
         report.count_n("frames", case.frames.len() as u64);
         report.count_n("frames_of_interleaved_link", case.frames.iter().filter(|f| f.other_link).count() as u64);
         report.count_n("aborted_deliveries", mine.iter().filter(|f| f.aborted).count() as u64);
+        report.count_n("frames_with_resume", mine.iter().filter(|f| f.resume).count() as u64);
+        report.count_n("lone_resumed_deliveries_inside_another", mine.iter().filter(|f| f.lone).count() as u64);
         if k % (n / 3).max(1) == 0 {
             report.sample(json!({"frames": case.frames.iter().map(|f| f.to_json()).collect::<Vec<_>>(), "application_saw": seen.iter().map(|x| x[..x.len().min(60)].to_string()).collect::<Vec<_>>()}));
         }
